@@ -348,11 +348,23 @@ type watchClient struct {
 func (w *watchClient) RequestProgress(ctx context.Context) error { return nil }
 func (w *watchClient) Close() error                              { return nil }
 
-// Watch registers asynchronously, as the real client does: the watch starts at the
-// server's revision at the moment the (parked) create request is released.
+// Watch blocks until the server has created the watcher, as the real client does (it
+// returns the channel only when the "created" response has arrived): the watch starts
+// at the server's revision at the moment the (parked) create request is released.
 func (w *watchClient) Watch(ctx context.Context, key string, opts ...clientv3.OpOption) clientv3.WatchChan {
 	op := clientv3.OpGet(key, opts...)
 	wa := &watcher{h: w.h, key: op.KeyBytes(), end: op.RangeBytes(), next: op.Rev(), out: make(chan clientv3.WatchResponse), ctx: ctx, wake: make(chan struct{}, 1)}
+	s := w.h.S
+	if err := s.Sim.Seam(w.h.Inst, w.h.Class, "WatchCreate "+short(wa.key), false); err != nil || ctx.Err() != nil || w.ctx.Err() != nil {
+		close(wa.out)
+		return wa.out
+	}
+	s.mu.Lock()
+	if wa.next == 0 {
+		wa.next = s.rev + 1
+	}
+	s.watchers[wa] = struct{}{}
+	s.mu.Unlock()
 	go wa.run(w.ctx)
 	return wa.out
 }
@@ -371,18 +383,6 @@ func (s *Server) notify() {
 func (wa *watcher) run(clientCtx context.Context) {
 	defer close(wa.out)
 	s := wa.h.S
-	if err := s.Sim.Seam(wa.h.Inst, wa.h.Class, "WatchCreate "+short(wa.key), false); err != nil {
-		return
-	}
-	if wa.ctx.Err() != nil || clientCtx.Err() != nil {
-		return
-	}
-	s.mu.Lock()
-	if wa.next == 0 {
-		wa.next = s.rev + 1
-	}
-	s.watchers[wa] = struct{}{}
-	s.mu.Unlock()
 	defer func() {
 		s.mu.Lock()
 		delete(s.watchers, wa)
